@@ -158,7 +158,16 @@ class PathClient(Client):
         return self.on_exit(it, s, value, stmt)
 
 
-def explore(project, func, client, init=None):
-    it = Interp(project, func, client)
+def explore(project, func, client, init=None, normal='guard'):
+    """explore all paths of `func`; by default over its normal form (small same-module helpers inlined, if/else in guard
+    form, len() truthiness simplified) so that extract-helper / guard-clause refactorings do not change what is seen"""
+    body = None
+    if normal:
+        from . import norm
+        if callable(normal):
+            body = norm.nf(project, func, select=normal).body
+        else:
+            body = norm.nf(project, func, inline=(normal == 'inline')).body
+    it = Interp(project, func, client, body=body)
     fl = it.run([init or State({})])
     return fl
